@@ -38,6 +38,11 @@ def candidates(ctx):
     return out
 
 
+def FicklingContextManagerDefault():
+    import fickling
+    return fickling.check_safety()
+
+
 def rank(an, sev):
     from ..rec_vm import sevnum
     return sevnum(an, sev)
@@ -74,6 +79,31 @@ def faces(ctx, datas, opt, an, fk, fickling, cli_main, idx, chan="path"):
                 name = e.info.get("severity") if isinstance(e.info, dict) else None
                 loader.append({"t": t, "raised": True, "info": [s.name for s in order].index(name) if name in [s.name for s in order] else -2})
     rec["loader"] = loader
+    # the same face with DEFAULT arguments, also after a hook / context life cycle ran in this process (what the checked
+    # loader accepts by default is not something an earlier, closed context may have changed)
+    if idx % 3 == 1:
+        import fickling.hook as _hook
+        from fickling.context import FicklingContextManager
+        cm = FicklingContextManager(max_acceptable_severity=an.Severity.LIKELY_OVERTLY_MALICIOUS)
+        cm.__enter__()
+        _hook.remove_hook()
+        cm.__exit__(None, None, None)
+        _hook.remove_hook()
+    elif idx % 3 == 2:
+        with FicklingContextManagerDefault():
+            pass
+    import pickle as _pk
+    real_loads = _pk.loads
+    _pk.loads = lambda *a, **k: "NOT-EXECUTED"          # nothing is unpickled for this face
+    try:
+        with open(path, "rb") as f:
+            try:
+                fickling.load(f)
+                rec["loader_default_raised"] = False
+            except UnsafeFileError:
+                rec["loader_default_raised"] = True
+    finally:
+        _pk.loads = real_loads
     cwd = os.getcwd()
     os.chdir(ctx.tmp)
     try:
